@@ -259,3 +259,156 @@ def case_c03(bindir, seed, index, tier, extra):
 def replay_c03(bindir, rp):
     vs, _, _ = run_c03(bindir, rp["history"])
     return [(c, d) for (c, d, i) in vs]
+
+
+# ================================================================================================
+# C32: crashes never leave wrongly trusted files
+
+
+def gen_history_c32(seed, tier):
+    rng = Rng(seed)
+    hist = gen_history(seed, tier, cache=rng.chance(0.3), nsteps=(1, 2))
+    hist["prebuild"] = rng.chance(0.7)     # a successful build of state 0 before the edits
+    hist["points"] = 8 if tier == "quick" else 0   # 0 = every FS operation
+    hist["kill_in_cmd"] = rng.chance(0.5)
+    return hist
+
+
+def copy_tree(src, dst):
+    shutil.rmtree(dst, ignore_errors=True)
+    import subprocess
+    subprocess.run(["cp", "-a", src, dst], check=True)
+
+
+def exec_history_c32(bindir, hist):
+    out = []
+    w = hl.World(bindir, "c32")
+    try:
+        rng = Rng(subseed(hist["seed"], "c32"))
+        args = ["build"] + hist["req"] + hl.BASE_ARGS + ["-n", str(hist["threads"])]
+        spec = resolve_cache(hist["states"][0], w)
+        w.write(spec)
+        if hist.get("prebuild"):
+            res, _ = w.plz(args, subseed(hist["seed"], "pre"))
+            if res.exit != 0:
+                return out, w.stats, w.sigs   # generator produced something unbuildable; nothing to check
+        for step in hist["steps"]:
+            spec = apply_step(w, hist, step)
+        clean = w.clean_build(spec, hist["req"])
+        if clean["exit"] != 0:
+            return out, w.stats, w.sigs
+        bak = w.sc.path("bak")
+        cbak = w.sc.path("cachebak")
+        copy_tree(w.repo, bak)
+        if os.path.isdir(w.sc.path("cache")):
+            copy_tree(w.sc.path("cache"), cbak)
+        vseed = subseed(hist["seed"], "victim")
+        # dry run: how many mutating FS operations does the victim build perform?
+        res, _ = w.plz(args, vseed)
+        if res.exit != 0:
+            out.append(("victim-build-failed", "the uncrashed victim build exited %d: %s" % (res.exit, res.stderr[-400:]), 0))
+            return out, w.stats, w.sigs
+        diffs0, _ = w.compare_outputs(clean)
+        if diffs0:
+            # the uncrashed incremental build already differs from a clean build: that is C01's business
+            # (reported there), and says nothing about crashes
+            w.stats["skipped_uncrashed_build_already_stale"] = w.stats.get("skipped_uncrashed_build_already_stale", 0) + 1
+            return out, w.stats, w.sigs
+        nops = int(res.stats.get("fsops", 0))
+        w.stats["victim_fs_ops"] = w.stats.get("victim_fs_ops", 0) + nops
+        points = list(range(1, nops + 1))
+        explicit = hist.get("crash_points")
+        if explicit:
+            points = explicit
+        elif hist.get("points"):
+            points = sorted(rng.sample(points, min(hist["points"], len(points))))
+        plans = [("fs", n) for n in points]
+        # crash from inside a running command (after its first output was written)
+        if hist.get("kill_in_cmd") and not explicit:
+            cands = [l for l in clean["ran"]]
+            if cands:
+                plans.append(("cmd", rng.choice(sorted(cands))))
+        if hist.get("cmd_kill"):
+            plans = [("cmd", hist["cmd_kill"])]
+        for kind, arg in plans:
+            copy_tree(bak, w.repo)
+            w.prev_files = None
+            if os.path.isdir(cbak):
+                copy_tree(cbak, w.sc.path("cache"))
+            else:
+                shutil.rmtree(w.sc.path("cache"), ignore_errors=True)  # the dry run may have created it
+            faults = None
+            if kind == "fs":
+                faults = [{"Kind": "crash", "At": arg, "Arg": "" if rng.chance(0.7) else "notear"}]
+                cres, _ = w.plz(args, vseed, faults=faults)
+            else:
+                # re-render the tree with the trigger wired into that target's command
+                ks = rs.clone(spec)
+                ft = rs.find_target(ks, arg)
+                if ft is None or ft[1]["kind"] != "genrule" or ft[1].get("dir") is not None or len(ft[1]["outs"]) < 1:
+                    continue
+                kf = w.sc.path("KILLME")
+                ft[1]["killfile"] = kf
+                # the command text changes, so take a new reference and a new baseline for this variant
+                rs.materialise(ks, w.repo, w.log, None)
+                open(kf, "w").close()
+                cres, _ = w.plz(args, vseed)
+                clean_k = w.clean_build(ks, hist["req"])
+                if os.path.exists(kf):
+                    os.remove(kf)   # the target was not rebuilt in this run; nothing was injected
+                    continue
+            if cres.exit != -9:
+                if kind == "fs":
+                    # the run finished before op n (schedule-identical runs should not): infrastructure problem
+                    raise simlib.Infra("crash point %s not reached (exit %s)" % (arg, cres.exit))
+                continue
+            w.stats["crashes_injected"] = w.stats.get("crashes_injected", 0) + 1
+            w.stats["crash_kind_" + kind] = w.stats.get("crash_kind_" + kind, 0) + 1
+            if any(l.startswith("W torn") for l in cres.trace_lines()[-30:]):
+                w.stats["torn_writes"] = w.stats.get("torn_writes", 0) + 1
+            ref = clean if kind == "fs" else clean_k
+            rres, rlog = w.plz(args, subseed(hist["seed"], "recover-%s-%s" % (kind, arg)))
+            where = "SIGKILL before FS operation %s of %d (%s)" % (arg, nops, (cres.killed_at or "").strip()) if kind == "fs" else "SIGKILL from inside the command of %s after its first output" % arg
+            rp = {"crash_points": [arg]} if kind == "fs" else {"cmd_kill": arg}
+            if rres.exit == simlib.EXIT_HANG:
+                out.append(("hang-after-crash", "%s: the next build did not terminate" % where, rp))
+                break
+            if rres.exit != 0:
+                out.append(("build-fails-after-crash", "%s: the next build exited %d: %s" % (where, rres.exit, rres.stderr[-600:]), rp))
+                break
+            saved = w.repo
+            diffs, kinds = w.compare_outputs(ref)
+            if diffs:
+                out.append(("stale-after-crash", "%s: after the next build the outputs differ from a clean build: %s" % (where, " | ".join(diffs[:3])), rp))
+                break
+            nres, nlog = w.plz(args, subseed(hist["seed"], "noop-%s-%s" % (kind, arg)))
+            ran = [l[1] for l in nlog if l[0] == "S"]
+            if nres.exit != 0 or ran:
+                out.append(("not-converged-after-crash", "%s: a third build of the unchanged tree exited %d and ran %s" % (where, nres.exit, ran), rp))
+                break
+            w.sigs.append("%s/%s/%s" % (hist["seed"], kind, arg))
+        return out, w.stats, w.sigs
+    finally:
+        w.close()
+
+
+def case_c32(bindir, seed, index, tier, extra):
+    r = CaseResult()
+    hist = gen_history_c32(seed, tier)
+    vs, stats, sigs = exec_history_c32(bindir, hist)
+    r.evals = stats["invocations"] + stats["clean_builds"]
+    r.stats = stats
+    r.sigs = [s for s in sigs if "/" in str(s)]
+    if index < 2:
+        r.sample = {"request": hist["req"], "prebuild": hist["prebuild"], "steps": [s["desc"] for s in hist["steps"]], "victim_fs_ops": stats.get("victim_fs_ops")}
+    for (c, d, rp) in vs[:1]:
+        h2 = json.loads(json.dumps(hist))
+        if isinstance(rp, dict):
+            h2.update(rp)
+        r.violations.append(Violation(c, d, {"engine": "histsim+crashfs", "history": h2}))
+    return r
+
+
+def replay_c32(bindir, rp):
+    vs, _, _ = exec_history_c32(bindir, rp["history"])
+    return [(c, d) for (c, d, i) in vs]
